@@ -117,7 +117,7 @@ def standin_independence(tier, seed):
     return dict(evaluations=evals, distinct_nontrivial=len(distinct),
                 rule="one evaluation = one metamorphic comparison on a real fitted model (others modified / alone / permuted / "
                      "personalisation / workers); distinct = (model kind, relation)",
-                samples=samples, violations=violations[:4],
+                samples=samples, violations=violations[:60],
                 bound=dict(space="2 fitted model kinds x 1 seeded cohort of 6", exhaustive=False, seed=seed))
 
 
